@@ -31,6 +31,7 @@ type runCase struct {
 	Fresh bool          `json:"fresh,omitempty"`
 	Mode  string        `json:"mode,omitempty"`
 	NoNames bool        `json:"noNames,omitempty"`
+	Quiet   bool        `json:"quiet,omitempty"`
 }
 type runResp struct {
 	R          [][]string `json:"r"`
@@ -306,8 +307,11 @@ type xrunner struct {
 	baseline func(code string, kind string) (string, bool) // nil: the input itself is the reference
 	onOutput func(cs xcase, cfg string, out string)      // optional extra oracle per output
 	keyPrefix string
+	fresh     bool                        // evaluate every code in a fresh V8 context (outputs with top-level helper variables)
+	quiet     bool                        // universal proxies do not log ownKeys / .call lookups
 	noNames   bool                        // do not observe constructor/function names (minify-identifiers without keep-names)
 	classify  func(exp, got string) string // maps a mismatch to a known-finding key ("" = ordinary violation)
+	classify2 func(exp, got, input string) []string // same, several keys, sees the input (nil/empty = ordinary violation)
 }
 
 // runBatch evaluates a batch of cases: reference (input) vs every configuration's output in V8.
@@ -364,7 +368,7 @@ func (x *xrunner) runBatch(w int, cases []xcase, seg string) {
 			continue
 		}
 		pend = append(pend, p)
-		rcs = append(rcs, runCase{Codes: p.codes, Calls: x.calls, Async: cs.kind == "async", NoNames: x.noNames})
+		rcs = append(rcs, runCase{Codes: p.codes, Calls: x.calls, Async: strings.HasPrefix(cs.kind, "async"), NoNames: x.noNames, Fresh: x.fresh, Quiet: x.quiet})
 	}
 	if len(rcs) == 0 {
 		return
@@ -402,6 +406,14 @@ func (x *xrunner) runBatch(w int, cases []xcase, seg string) {
 				if x.classify != nil {
 					if k := x.classify(obs[0], obs[k]); k != "" {
 						key = k
+					}
+				}
+				if x.classify2 != nil {
+					if ks := x.classify2(obs[0], obs[k], p.cs.code); len(ks) > 0 {
+						for _, kk := range ks[1:] {
+							c.Violation(kk, map[string]interface{}{"kind": "behaviour-differs", "segment": seg, "config": p.cfgs[k], "input": p.cs.code, "output": p.codes[k], "expected_obs": obs[0], "observed_obs": obs[k]})
+						}
+						key = ks[0]
 					}
 				}
 				c.Violation(key, map[string]interface{}{"kind": "behaviour-differs", "segment": seg, "config": p.cfgs[k], "input": p.cs.code, "reference": p.codes[0], "output": p.codes[k], "expected_obs": obs[0], "observed_obs": obs[k]})
